@@ -48,6 +48,7 @@ type BatchCfg struct {
 	Barrier  []int // barrier schedule: the items (1-based) that wait for each other; all others return at once
 	ErrItems []int // items (1-based) that prep hands over as error Results (they are items like any other)
 	WarmC    int   // > 0: the same node object first performs a run with this concurrency, then is reconfigured
+	Procs    int   // > 0: run the scenario with GOMAXPROCS limited to this value
 }
 
 func parseBatchCfg(m map[string]any) BatchCfg {
@@ -55,7 +56,7 @@ func parseBatchCfg(m map[string]any) BatchCfg {
 		Fb: asBool(m["fb"]), Ctx0: asBool(m["ctx0"]), Cancel: asBool(m["cancel"]), PrepErr: asBool(m["preperr"]),
 		PostErr: asBool(m["posterr"]), Gated: asBool(m["gated"]), Strict: asBool(m["strict"]),
 		Shape: asStr(m["shape"]), ExSty: asStr(m["exsty"]), Via: asStr(m["via"]), Sched: asStr(m["sched"]),
-		CtxKind: asStr(m["ctxkind"]), GenSeed: asStr(m["genseed"]), WarmC: asInt(m["warmc"])}
+		CtxKind: asStr(m["ctxkind"]), GenSeed: asStr(m["genseed"]), WarmC: asInt(m["warmc"]), Procs: asInt(m["procs"])}
 	for _, a := range asList(m["barrier"]) {
 		c.Barrier = append(c.Barrier, asInt(a))
 	}
@@ -106,7 +107,7 @@ func (c BatchCfg) toJSON() map[string]any {
 	return map[string]any{"N": c.N, "n": c.Items, "c": c.C, "stopmode": c.StopMode, "w": c.W, "fb": c.Fb, "ctx0": c.Ctx0,
 		"cancel": c.Cancel, "acts": acts, "outs": outs, "preperr": c.PrepErr, "posterr": c.PostErr, "gated": c.Gated,
 		"strict": c.Strict, "shape": c.Shape, "exsty": c.ExSty, "via": c.Via, "sched": c.Sched, "ctxkind": c.CtxKind, "genseed": c.GenSeed,
-		"barrier": bar, "warmc": c.WarmC, "erritems": eit}
+		"barrier": bar, "warmc": c.WarmC, "erritems": eit, "procs": c.Procs}
 }
 
 // ---- script ----------------------------------------------------------------
@@ -533,7 +534,13 @@ func (b *batchRun) prepValue() any {
 
 func (b *batchRun) build() *flyt.BatchNodeBuilder {
 	cfg := b.cfg
-	bn := flyt.NewBatchNode()
+	var bn *flyt.BatchNodeBuilder
+	if !cfg.StopMode && cfg.ModeSet {
+		// the node was in stop mode once (constructor option) and is switched back through the builder
+		bn = flyt.NewBatchNode(flyt.WithBatchErrorHandling(false))
+	} else {
+		bn = flyt.NewBatchNode()
+	}
 	needCustom := cfg.Fb || cfg.Shape != "results"
 	if needCustom {
 		// a fallback and the non-[]Result prep shapes are reachable only through the exported embedded CustomNode
@@ -552,6 +559,9 @@ func (b *batchRun) build() *flyt.BatchNodeBuilder {
 			}))
 		}
 		bn.CustomNode = flyt.NewNode(opts...).CustomNode
+		if !cfg.StopMode && cfg.ModeSet {
+			bn.WithBatchErrorHandling(false) // (the replaced CustomNode starts from defaults again)
+		}
 	}
 	// configuration: option form for half of the settings, builder form for the others
 	bn.WithMaxRetries(cfg.N).WithWait(time.Duration(cfg.W) * time.Millisecond)
@@ -748,6 +758,10 @@ func (b *batchRun) controller() {
 var batchSettle = 1 * time.Millisecond
 
 func runBatchScenario(cfg BatchCfg, sc *BatchScript, seed int64) []Event {
+	if cfg.Procs > 0 {
+		old := runtime.GOMAXPROCS(cfg.Procs)
+		defer runtime.GOMAXPROCS(old)
+	}
 	reg := NewRegistry()
 	reg.NoTypedNil = true
 	reg.RunCtxKind = cfg.CtxKind
